@@ -1,0 +1,324 @@
+//! Verification seams (compiled only with `--cfg fidget_verif`)
+//!
+//! This module lets an external deterministic simulator own the sources of
+//! nondeterminism that Fidget's results may depend on:
+//!
+//! - the fork-join schedule of `rayon` parallel iterators ([`SimVec`])
+//! - the apparent thread-pool size ([`thread_count_override`])
+//! - the instant at which a cancel token is set ([`event`] at each poll)
+//! - tuning knobs whose default makes a slow path unreachable
+//!   ([`page_size_override`])
+//!
+//! When no [`Sim`] is installed on the current thread, every function here is
+//! a no-op and [`SimVec`] forwards to real `rayon`, so behaviour is unchanged.
+use rayon::iter::{
+    FromParallelIterator, IntoParallelIterator, ParallelIterator,
+};
+use std::cell::{Cell, RefCell};
+
+/// Simulator interface, installed per thread
+pub trait Sim {
+    /// Draws a value in `0..n` for the decision named `site`
+    fn choose(&mut self, site: &'static str, n: u32) -> u32;
+
+    /// Reports that the code under test reached the point named `site`
+    ///
+    /// The callback may call back into Fidget (e.g. to cancel a token).
+    fn event(&mut self, site: &'static str, a: u64, b: u64);
+
+    /// Simulated thread-pool size, or `None` for the real value
+    fn thread_count(&self) -> Option<usize> {
+        None
+    }
+
+    /// Simulated allocation granularity for executable memory
+    fn page_size(&self) -> Option<usize> {
+        None
+    }
+}
+
+thread_local! {
+    static SIM: RefCell<Option<Box<dyn Sim>>> = const { RefCell::new(None) };
+    static ACTIVE: Cell<bool> = const { Cell::new(false) };
+}
+
+/// Installs a simulator on the current thread, returning the previous one
+pub fn install(s: Box<dyn Sim>) -> Option<Box<dyn Sim>> {
+    ACTIVE.with(|a| a.set(true));
+    SIM.with(|c| c.borrow_mut().replace(s))
+}
+
+/// Removes the simulator from the current thread
+pub fn uninstall() -> Option<Box<dyn Sim>> {
+    ACTIVE.with(|a| a.set(false));
+    SIM.with(|c| c.borrow_mut().take())
+}
+
+/// Checks whether a simulator is installed on the current thread
+pub fn installed() -> bool {
+    ACTIVE.with(|a| a.get())
+}
+
+/// Runs `f` with the installed simulator (if present and not already in use)
+///
+/// The simulator is taken out of its slot during the call, so the callback may
+/// re-enter Fidget code that itself reaches a hook; such nested hooks see no
+/// simulator and do nothing.
+fn with_sim<R>(f: impl FnOnce(&mut dyn Sim) -> R) -> Option<R> {
+    if !installed() {
+        return None;
+    }
+    let mut s = SIM.with(|c| c.borrow_mut().take())?;
+    let r = f(s.as_mut());
+    SIM.with(|c| {
+        let mut c = c.borrow_mut();
+        if c.is_none() && installed() {
+            *c = Some(s);
+        }
+    });
+    Some(r)
+}
+
+/// Draws a decision from the simulator (0 if none is installed)
+pub fn choose(site: &'static str, n: u32) -> u32 {
+    if n <= 1 {
+        return 0;
+    }
+    with_sim(|s| s.choose(site, n) % n).unwrap_or(0)
+}
+
+/// Reports an event to the simulator
+#[inline]
+pub fn event(site: &'static str, a: u64, b: u64) {
+    if installed() {
+        with_sim(|s| s.event(site, a, b));
+    }
+}
+
+/// Reports that a branch of interest was reached
+#[inline]
+pub fn probe(name: &'static str) {
+    event(name, 0, 0);
+}
+
+/// Simulated thread count, if a simulator is installed and provides one
+pub fn thread_count_override() -> Option<usize> {
+    with_sim(|s| s.thread_count()).flatten()
+}
+
+/// Simulated page size, if a simulator is installed and provides one
+pub fn page_size_override() -> Option<usize> {
+    with_sim(|s| s.page_size()).flatten()
+}
+
+////////////////////////////////////////////////////////////////////////////////
+
+/// Fallible item results, which short-circuit a parallel `collect`
+pub trait SimTry {
+    /// Returns `true` if this item stops the collection
+    fn is_fail(&self) -> bool;
+}
+
+impl<T, E> SimTry for Result<T, E> {
+    fn is_fail(&self) -> bool {
+        self.is_err()
+    }
+}
+
+impl<T> SimTry for Option<T> {
+    fn is_fail(&self) -> bool {
+        self.is_none()
+    }
+}
+
+/// Vector of work items whose parallel iteration is owned by the simulator
+///
+/// The inherent methods shadow the `rayon` trait methods of the same names, so
+/// call sites compile unchanged.
+pub struct SimVec<T>(Vec<T>);
+
+impl<T> SimVec<T> {
+    /// Wraps a vector of work items
+    pub fn new(v: Vec<T>) -> Self {
+        Self(v)
+    }
+}
+
+impl<T> IntoIterator for SimVec<T> {
+    type Item = T;
+    type IntoIter = std::vec::IntoIter<T>;
+    fn into_iter(self) -> Self::IntoIter {
+        self.0.into_iter()
+    }
+}
+
+impl<'a, T> IntoIterator for &'a SimVec<T> {
+    type Item = &'a T;
+    type IntoIter = std::slice::Iter<'a, T>;
+    fn into_iter(self) -> Self::IntoIter {
+        self.0.iter()
+    }
+}
+
+impl<T: Send> SimVec<T> {
+    /// Shadows `IntoParallelIterator::into_par_iter`
+    pub fn into_par_iter(self) -> SimIter<T> {
+        SimIter(self.0)
+    }
+}
+
+impl<T: Sync> SimVec<T> {
+    /// Shadows `IntoParallelRefIterator::par_iter`
+    pub fn par_iter(&self) -> SimIter<&T> {
+        SimIter(self.0.iter().collect())
+    }
+
+    /// Number of items
+    pub fn len(&self) -> usize {
+        self.0.len()
+    }
+
+    /// Checks whether there are no items
+    pub fn is_empty(&self) -> bool {
+        self.0.is_empty()
+    }
+}
+
+/// See [`SimVec`]
+pub struct SimIter<T>(Vec<T>);
+
+impl<T: Send> SimIter<T> {
+    /// Shadows `ParallelIterator::map_init`
+    pub fn map_init<F, INIT, S, R>(
+        self,
+        init: INIT,
+        f: F,
+    ) -> SimMapInit<T, INIT, F>
+    where
+        F: Fn(&mut S, T) -> R + Sync + Send,
+        INIT: Fn() -> S + Sync + Send,
+        R: Send,
+    {
+        SimMapInit {
+            items: self.0,
+            init,
+            f,
+        }
+    }
+}
+
+/// See [`SimVec`]
+pub struct SimMapInit<T, INIT, F> {
+    items: Vec<T>,
+    init: INIT,
+    f: F,
+}
+
+enum Seg<S> {
+    Pending,
+    Running(S, usize),
+    Done,
+}
+
+impl<T, INIT, F, S, R> SimMapInit<T, INIT, F>
+where
+    T: Send,
+    F: Fn(&mut S, T) -> R + Sync + Send,
+    INIT: Fn() -> S + Sync + Send,
+    R: Send + SimTry,
+{
+    /// Shadows `ParallelIterator::collect`
+    ///
+    /// Without a simulator this is real `rayon`.  With one, it models what
+    /// `rayon` may do for an indexed `map_init(..).collect()`: the index range
+    /// is split by recursive halving into segments, each with its own
+    /// `init()` state; items of a segment run in order; at most
+    /// `thread_count` segments are in progress, interleaved item by item; after
+    /// a failing item, other segments may or may not notice before running
+    /// further items; the result is in index order.
+    pub fn collect<C>(self) -> C
+    where
+        C: FromParallelIterator<R> + FromIterator<R>,
+    {
+        if !installed() {
+            return self
+                .items
+                .into_par_iter()
+                .map_init(self.init, self.f)
+                .collect();
+        }
+        let n = self.items.len();
+        let mut ranges = vec![];
+        split_ranges(0, n, &mut ranges);
+        let width = thread_count_override().unwrap_or(1).max(1);
+        event("exec_begin", n as u64, ranges.len() as u64);
+
+        let mut items: Vec<Option<T>> =
+            self.items.into_iter().map(Some).collect();
+        let mut results: Vec<Option<R>> = (0..n).map(|_| None).collect();
+        let mut segs: Vec<Seg<S>> =
+            ranges.iter().map(|_| Seg::Pending).collect();
+        let mut stop = false;
+        let mut ran = 0u64;
+        loop {
+            let running =
+                segs.iter().filter(|s| matches!(s, Seg::Running(..))).count();
+            let cands: Vec<usize> = segs
+                .iter()
+                .enumerate()
+                .filter(|(_, s)| match s {
+                    Seg::Running(..) => true,
+                    Seg::Pending => running < width,
+                    Seg::Done => false,
+                })
+                .map(|(i, _)| i)
+                .collect();
+            if cands.is_empty() {
+                break;
+            }
+            let si = cands[choose("next", cands.len() as u32) as usize];
+            let (lo, hi) = ranges[si];
+            // A worker checks the shared stop flag before each item; the flag
+            // is relaxed, so it may or may not have become visible (0 = seen)
+            if stop && choose("sees_stop", 2) == 0 {
+                event("stop_seen", si as u64, 0);
+                segs[si] = Seg::Done;
+                continue;
+            }
+            if matches!(segs[si], Seg::Pending) {
+                event("seg_init", si as u64, lo as u64);
+                segs[si] = Seg::Running((self.init)(), lo);
+            }
+            let Seg::Running(state, next) = &mut segs[si] else {
+                unreachable!()
+            };
+            let idx = *next;
+            event("item_start", idx as u64, si as u64);
+            let r = (self.f)(state, items[idx].take().unwrap());
+            let failed = r.is_fail();
+            results[idx] = Some(r);
+            ran += 1;
+            event("item_end", idx as u64, failed as u64);
+            *next += 1;
+            if failed {
+                stop = true;
+            }
+            if failed || *next == hi {
+                segs[si] = Seg::Done;
+            }
+        }
+        event("exec_end", ran, stop as u64);
+        results.into_iter().flatten().collect()
+    }
+}
+
+/// Recursive halving of `lo..hi` into leaf segments, as `rayon` splits
+fn split_ranges(lo: usize, hi: usize, out: &mut Vec<(usize, usize)>) {
+    if hi - lo > 1 && choose("split", 2) == 1 {
+        let mid = lo + (hi - lo) / 2;
+        split_ranges(lo, mid, out);
+        split_ranges(mid, hi, out);
+    } else if hi > lo {
+        out.push((lo, hi));
+    }
+}
